@@ -70,7 +70,7 @@ def rule_r1(ctx):
         for (t, pol, b) in g.guards(n):
             if pol is True and dotted(t) == "self.connected" and any(g.dominates(w, b) for w in waits):
                 # failing branch raises
-                other = [x for x in g.nodes if x.kind == "branch" and x.ast is t and x.polarity is False]
+                other = [x for x in g.nodes if x.kind == "branch" and x.ast is getattr(t, "_guard_of", t) and x.polarity is False]
                 if other and g.exit.id not in g.reach(other[0], follow_exc=True) | set():
                     ok = True
                 elif other:
@@ -126,7 +126,8 @@ def rule_r2(ctx, rid="C12.R2"):
     for (f, g, n, c, loop) in _wait_loops(ctx):
         if loop is None:
             continue
-        conj = loop.test.values if isinstance(loop.test, ast.BoolOp) and isinstance(loop.test.op, ast.And) else [loop.test]
+        lt = g.expand(loop.test, n)
+        conj = lt.values if isinstance(lt, ast.BoolOp) and isinstance(lt.op, ast.And) else [lt]
         ps = [t for t in conj if any(_is_total(x) for x in ast.walk(t))]
         if not ps:
             ctx.r.violation(rid, key_of(f, None, "wait-predicate-ignores-backlog"), "the wait loop does not test the pending output against the mark", f.loc(loop))
